@@ -63,7 +63,9 @@ def eval_case(case, prims, raw=False):
     env = dict(inp.__dict__)
     out = {"skip": False}
     try:
-        r = eval(case.call, dict(_module_globals(case)), env)
+        g = dict(_module_globals(case))
+        g.update(env)  # one namespace: lambdas inside the call expression must see the inputs
+        r = eval(case.call, g)
         if isinstance(r, types.GeneratorType):
             r = list(r)
         outcome = "return"
@@ -95,6 +97,8 @@ def eval_case(case, prims, raw=False):
                 out.setdefault("notes", []).append(f"post:{label} not evaluable: {type(ex).__name__}: {ex}")
     listed = False
     for exc, w in case.raises.items():
+        if raw and exc in getattr(case, "known_raises", {}):
+            continue  # raw replay of a known finding: the exception is NOT accepted as documented behaviour
         try:
             cond = bool(w(inp))
         except Exception as ex:
